@@ -1650,6 +1650,9 @@ def _destructure(target: ast.AST, row: ast.AST, out: dict) -> bool:
 
 def _row_value_ok(e: ast.AST) -> bool:
     """a table cell may be substituted for its loop variable when evaluating it has no effect: names, attribute reads, constants, displays of these"""
+    if isinstance(e, ast.Call) and chain(e.func) in _FUNC_OBJECTS and e.args and not any(isinstance(a, ast.Starred) for a in e.args):
+        # a pre-bound step `partial(self.endpoint.remove_listener, self)` / `methodcaller("unload")`: building it only records its (effect-free) operands
+        return all(_row_value_ok(a) for a in e.args) and all(k.arg is not None and _row_value_ok(k.value) for k in e.keywords)
     return all(isinstance(n, (ast.Name, ast.Attribute, ast.Constant, ast.Tuple, ast.List, ast.expr_context)) for n in ast.walk(e))
 
 
@@ -2053,6 +2056,9 @@ class _Desugar(ast.NodeTransformer):
         f = self._callee(n.func)
         kind = _FUNC_OBJECTS.get(chain(f.func) or "") if isinstance(f, ast.Call) else None
         plain = not n.keywords and not any(isinstance(a, ast.Starred) for a in n.args)
+        if kind == "partial" and f.args and not isinstance(f.args[0], ast.Starred) and not n.keywords:
+            # partial(g, *A, **K)(*B) is g(*A, *B, **K)
+            return self._apply(clone(f.args[0]), [clone(a) for a in [*f.args[1:], *n.args]], [clone(k) for k in f.keywords])
         if kind == "partial" and f.args and not isinstance(f.args[0], ast.Starred) and all(k.arg for k in f.keywords):
             kw = {k.arg: k for k in f.keywords}
             kw.update({k.arg: k for k in n.keywords if k.arg})
@@ -2410,19 +2416,247 @@ def _generator_loops_inlined(ctx: Ctx, fi: FuncInfo, fn: ast.AST) -> bool:      
     return changed
 
 
+# ----------------------------------------------------------------------------------- early binding: locals that only name a stable read
+def _unstable_attrs(ctx: Ctx) -> tuple[set[str], set[str]]:
+    """
+    (attribute names that are assigned / deleted anywhere outside an `__init__` through `self` - or through setattr/delattr with a literal name -,
+    names that some class defines as a property): reading any OTHER attribute of an initialised object twice gives the same object both times.
+    """
+    memo = ctx.__dict__.get("_c11_unstable")
+    if memo is None:
+        from ..model import enclosing_function
+        stored: set[str] = set()
+        computed: set[str] = set()
+        for m in ctx.repo.modules.values():
+            for n in ast.walk(m.tree):
+                if isinstance(n, ast.Attribute) and isinstance(n.ctx, (ast.Store, ast.Del)):
+                    f = enclosing_function(n)
+                    if f is None or f.name != "__init__" or not (isinstance(n.value, ast.Name) and f.args.args and n.value.id == f.args.args[0].arg):
+                        stored.add(n.attr)
+                elif isinstance(n, ast.Call) and chain(n.func) in ("setattr", "delattr", "object.__setattr__") and len(n.args) >= 2:
+                    v = const_value(n.args[1])
+                    if isinstance(v, str):
+                        stored.add(v)
+                elif isinstance(n, (ast.FunctionDef, ast.AsyncFunctionDef)) and n.decorator_list:
+                    # (a decorated method may be a descriptor that computes on every read: property, cached_property, x.setter ..)
+                    dn = {(chain(d.func if isinstance(d, ast.Call) else d) or "?").rsplit(".", 1)[-1] for d in n.decorator_list}
+                    if any("property" in x or x in ("setter", "getter", "deleter", "?") for x in dn):
+                        computed.add(n.name)
+        memo = ctx.__dict__["_c11_unstable"] = (stored, computed)
+    return memo
+
+
+def _family_rebinds(ctx: Ctx, cls: ClassInfo) -> set[str]:
+    """attribute names that a method (other than __init__) of the class, its bases or its subclasses assigns / deletes through its own `self`"""
+    memo = ctx.__dict__.setdefault("_c11_family_rebinds", {})
+    k = id(cls.node)
+    if k not in memo:
+        fam = {id(c.node) for c in [*cls.mro(), *cls.all_subclasses()]}
+        fam |= {id(b.node) for c in cls.all_subclasses() for b in c.mro()}
+        out: set[str] = set()
+        for f in ctx.repo.all_functions():
+            if f.cls is None or id(f.cls.node) not in fam or f.name == "__init__":
+                continue
+            own = f.params()[0] if f.params() and not isinstance(f.node, ast.Lambda) else None
+            for n in ast.walk(f.node):
+                if isinstance(n, ast.Attribute) and isinstance(n.ctx, (ast.Store, ast.Del)):
+                    # (a store through another name is made on another object - typically one that the method has just built - unless that name is
+                    # an alias of self)
+                    r = n.value
+                    if not isinstance(r, ast.Name) or r.id == own or (own is not None and any(
+                            isinstance(v, ast.Name) and v.id == own for _, v, _i in local_defs(f, r.id) if v is not None)):
+                        out.add(n.attr)
+                elif isinstance(n, ast.Call) and chain(n.func) in ("setattr", "delattr", "object.__setattr__"):
+                    v = const_value(n.args[1]) if len(n.args) >= 2 else None
+                    out.add(v if isinstance(v, str) else "*")
+        memo[k] = out
+    return memo[k]
+
+
+def _stable_read(ctx: Ctx, fi: FuncInfo, e: ast.AST) -> bool:
+    """
+    e is `obj.a[.b ..]` (obj: `self`, a parameter or a local that is bound once) where no attribute of the chain is computed by a property and
+      - none is ever re-assigned after construction (anywhere, through any receiver): a bound method (`self.register_task`, `listener.on_packet`),
+        a table / lock created in __init__ (`self._pending_tasks`); or
+      - (through `self` only) the object never re-assigns it itself: no method of its class family other than __init__ stores it, nor does this
+        function through any receiver (`self.endpoint`, `self.bootstrappers`: set up by whoever builds the object, before it is used).
+    Evaluating e once into a local and using the local is then the same as evaluating e at each use.
+    """
+    parts = []
+    while isinstance(e, ast.Attribute):
+        parts.append(e.attr)
+        e = e.value
+    if not parts or not isinstance(e, ast.Name) or isinstance(fi.node, ast.Lambda) or fi.name == "__init__":
+        return False
+    ps = fi.params()
+    own = bool(ps) and e.id == ps[0] and e.id in ("self", "cls") and fi.cls is not None and "staticmethod" not in fi.decorator_names()
+    if not own and not (e.id in ps or single_def(fi, e.id) is not None):
+        return False
+    if not _bound_once(fi.node, e.id):
+        return False
+    stored, computed = _unstable_attrs(ctx)
+    if any(p in computed for p in parts):
+        return False
+    if not any(p in stored for p in parts):
+        return True
+    if not own:
+        return False
+    fam = _family_rebinds(ctx, fi.cls)
+    here = {n.attr for n in ast.walk(fi.node) if isinstance(n, ast.Attribute) and isinstance(n.ctx, (ast.Store, ast.Del))}
+    return "*" not in fam and not any(p in fam or p in here for p in parts)
+
+
+def _bound_once(root: ast.AST, name: str) -> bool:
+    """`name` is bound exactly once in the whole function `root` (nested scopes included): a parameter never assigned, or a local assigned by one statement"""
+    n = 0
+    for x in ast.walk(root):
+        if isinstance(x, ast.Name) and x.id == name and isinstance(x.ctx, (ast.Store, ast.Del)):
+            n += 1
+        elif isinstance(x, ast.arg) and x.arg == name:
+            n += 1
+        elif isinstance(x, (ast.Global, ast.Nonlocal)) and name in x.names:
+            return False
+        elif isinstance(x, ast.ExceptHandler) and x.name == name:
+            n += 1
+        elif isinstance(x, (ast.FunctionDef, ast.AsyncFunctionDef, ast.ClassDef)) and x is not root and x.name == name:
+            n += 1
+        elif isinstance(x, (ast.MatchAs, ast.MatchStar)) and x.name == name:
+            n += 1
+        elif isinstance(x, ast.MatchMapping) and x.rest == name:
+            n += 1
+        elif isinstance(x, ast.alias) and (x.asname or x.name.split(".")[0]) == name:
+            n += 1
+    return n == 1
+
+
+def _stable_expr(ctx: Ctx, fi: FuncInfo, e: ast.AST, *, func_objects: bool) -> bool:
+    """evaluating e anywhere in fi (or later, in a closure of fi) gives what evaluating it where it is written gives"""
+    if isinstance(e, ast.Constant):
+        return True
+    if isinstance(e, ast.Name):
+        if e.id in fi.params() or local_defs(fi, e.id) or any(isinstance(x, ast.Name) and x.id == e.id and isinstance(x.ctx, ast.Store) for x in ast.walk(fi.node)):
+            return _bound_once(fi.node, e.id)
+        return True                  # a module-level function / class / constant
+    if isinstance(e, ast.Attribute):
+        return _stable_read(ctx, fi, e)
+    if isinstance(e, (ast.Tuple, ast.List)):
+        return all(_stable_expr(ctx, fi, x, func_objects=False) for x in e.elts)
+    if isinstance(e, ast.Starred):
+        return _stable_expr(ctx, fi, e.value, func_objects=False)
+    if func_objects and isinstance(e, ast.Call) and chain(e.func) in _FUNC_OBJECTS:
+        return all(_stable_expr(ctx, fi, a, func_objects=False) for a in [*e.args, *[k.value for k in e.keywords]])
+    return False
+
+
+def _early_bound(ctx: Ctx, fi: FuncInfo, *, closure: bool) -> dict[str, ast.AST]:
+    """
+    local name -> the expression it stands for, for every local of fi that is bound once to a stable read (`registry = self._pending_tasks`,
+    `send, cancel = self.ez_send, self.cancel_pending_task`) - and, for use inside closures of fi (closure=True), to a functional object over
+    stable values (`register_replacement = partial(self.register_task, name, *args, **kwargs)`).
+    """
+    if isinstance(fi.node, ast.Lambda):
+        return {}
+    out: dict[str, ast.AST] = {}
+    seen: set[str] = set()
+    for x in walk_no_nested(fi.node):
+        if not (isinstance(x, ast.Name) and isinstance(x.ctx, ast.Store)) or x.id in seen or x.id in fi.params():
+            continue
+        seen.add(x.id)
+        d = single_def(fi, x.id)
+        if d is None or d[1] is not None:
+            continue
+        v = strip_cast(d[0])
+        if not (isinstance(v, ast.Attribute) or (closure and isinstance(v, ast.Call))):
+            continue
+        if _bound_once(fi.node, x.id) and _stable_expr(ctx, fi, v, func_objects=closure):
+            out[x.id] = v
+    return out
+
+
+class _NameSubst(ast.NodeTransformer):
+    def __init__(self, mapping: dict[str, ast.AST]) -> None:
+        self.mapping = mapping
+        self.changed = False
+
+    def visit_Name(self, n: ast.Name):
+        if isinstance(n.ctx, ast.Load) and n.id in self.mapping:
+            self.changed = True
+            return ast.copy_location(clone(self.mapping[n.id]), n)
+        return n
+
+
+def _enclosing_info(fi: FuncInfo) -> FuncInfo | None:
+    """the function in whose body fi (a nested def / lambda) is written"""
+    from ..model import enclosing_function
+    o = enclosing_function(fi.node)
+    if o is None:
+        return None
+    info = getattr(o, "_info", None)
+    if isinstance(info, FuncInfo) and info.node is o:
+        return info
+    return FuncInfo(o.name, fi.qualname.rsplit(".", 1)[0], o, fi.module, fi.cls)
+
+
+def _early_bindings_written_out(ctx: Ctx, fi: FuncInfo, node: ast.AST) -> bool:
+    """
+    Replaces (in `node`, a copy of fi's syntax) every read of an early-bound local by the stable expression it names; in a nested def / lambda also
+    the free names that the enclosing function(s) bound once to a stable read or to a partial / methodcaller over stable values.  True when changed.
+    """
+    def binds(f: ast.AST, k: str) -> bool:
+        return any((isinstance(x, ast.Name) and x.id == k and isinstance(x.ctx, (ast.Store, ast.Del))) or (isinstance(x, ast.arg) and x.arg == k) for x in ast.walk(f))
+    free: dict[str, ast.AST] = {}
+    outer, hops = _enclosing_info(fi), 0
+    while outer is not None and hops < 3:
+        for k, v in _early_bound(ctx, outer, closure=True).items():
+            # (the nested function must see the enclosing function's variable, and every name of the expression must mean there what it means here)
+            if k not in free and not binds(fi.node, k) and not any(isinstance(x, ast.Name) and binds(fi.node, x.id) for x in ast.walk(v)):
+                free[k] = v
+        outer, hops = _enclosing_info(outer), hops + 1
+    changed = False
+    cur = fi
+    for _ in range(3):
+        mapping = {**free, **_early_bound(ctx, cur, closure=False)}
+        if not mapping:
+            break
+        sub = _NameSubst(mapping)
+        if isinstance(node.body, list):
+            node.body = [sub.visit(st) for st in node.body]
+        else:
+            node.body = sub.visit(node.body)
+        if not sub.changed:
+            break
+        changed = True
+        ast.fix_missing_locations(node)
+        set_parents(node)
+        cur = FuncInfo(fi.name, fi.qualname, node, fi.module, fi.cls)
+    return changed
+
+
 def _prepass(ctx: Ctx, fi: FuncInfo) -> FuncInfo:
     """behaviour-preserving respellings applied before the rules look at a function: property views over a state holder, index loops"""
     if isinstance(fi.node, ast.Lambda):
-        return fi
+        if _enclosing_info(fi) is None:
+            return fi
+        node = clone(fi.node)
+        set_parents(node)
+        if not _early_bindings_written_out(ctx, fi, node):
+            return fi
+        return FuncInfo(fi.name, fi.qualname, node, fi.module, fi.cls)
     props = _property_views(ctx, fi.cls) if fi.cls is not None and "property" not in fi.decorator_names() else {}
     hit = props and any(isinstance(x, ast.Attribute) and chain(x) in props for x in ast.walk(fi.node))
     loops = any(isinstance(x, ast.While) for x in walk_no_nested(fi.node))
     gens = any(isinstance(x, ast.For) and isinstance(x.iter, ast.Call) and (isinstance(x.iter.func, ast.Name) or chain(getattr(x.iter.func, "value", None)) in ("self", "cls"))
                and call_name(x.iter) not in (*_SNAPSHOT_CTORS, "range", "enumerate", "zip", "reversed", "iter", "map", "filter") for x in walk_no_nested(fi.node))
-    if not hit and not loops and not gens:
+    early = bool(_early_bound(ctx, fi, closure=False)) or (_enclosing_info(fi) is not None and any(
+        isinstance(x, ast.Name) and isinstance(x.ctx, ast.Load) and x.id not in fi.params() and not local_defs(fi, x.id) for x in ast.walk(fi.node)))
+    if not hit and not loops and not gens and not early:
         return fi
     node = clone(fi.node)
     changed = False
+    if early:
+        set_parents(node)
+        if _early_bindings_written_out(ctx, fi, node):
+            changed = True
     if hit:
         class P(ast.NodeTransformer):
             def visit_Attribute(self, n: ast.Attribute):
@@ -4050,7 +4284,7 @@ def rule_taskmanager(ctx: Ctx) -> None:  # noqa: C901, PLR0912, PLR0915
                     if _is_pending_lookup(a) and norm(b) == fut:
                         return False
             return None
-        pops = _sites_through(ctx, g, lambda h: [c for c in calls(h, "self._pending_tasks.pop")] +
+        pops = _sites_through(ctx, U(ctx, g), lambda h: [c for c in calls(h, "self._pending_tasks.pop")] +
                               [s for s, _ in stores(h, "self._pending_tasks[]") if isinstance(s, ast.Delete)])
         for links in pops:
             h, c = links[-1]
@@ -4080,7 +4314,7 @@ def rule_taskmanager(ctx: Ctx) -> None:  # noqa: C901, PLR0912, PLR0915
         old = resolve(rp, cbs[0].func.value)
         ok = isinstance(old, ast.Call) and chain(old.func) == "self.cancel_pending_task" and norm(arg(old, 0)) == pname
         targets = _callback_targets(ctx, rp, cbs[0].args[0])
-        regs = [(g, links) for g, _ in targets for links in _sites_through(ctx, g, lambda f: calls(f, "self.register_task"))]
+        regs = [(g, links) for g, _ in targets for links in _sites_through(ctx, U(ctx, g), lambda f: calls(f, "self.register_task"))]
         ok = ok and bool(targets) and len(regs) == len(targets) == 1
         if ok:
             g, links = regs[0]
@@ -4125,13 +4359,22 @@ def rule_taskmanager(ctx: Ctx) -> None:  # noqa: C901, PLR0912, PLR0915
 
     def is_registration_test(f) -> str | None:
         """'prefix' / 'generic' when the fact tests whether the listener is still registered for the packet's prefix / as a generic listener"""
-        if f.op == "in" and chain(f.right) == "self._listeners" and norm(f.left) == lst[0]:
+        if f.op == "in" and rc(f.right) == "self._listeners" and norm(f.left) == lst[0]:
             return "generic"
-        if f.op == "in" and chain(f.right) == "self._prefix_map":
+        if f.op == "in" and rc(f.right) == "self._prefix_map":
             return "prefix"
-        if f.op == "truthy" and isinstance(f.left, ast.Call) and chain(f.left.func) == "self._prefix_map.get":
+        if f.op == "truthy" and isinstance(f.left, ast.Call) and rc(f.left.func) == "self._prefix_map.get":
             return "prefix"
         return None
+
+    def rc(e: ast.AST, g: FuncInfo | None = None) -> str | None:
+        """
+        the member that e reads, also through a local of the (synchronous) delivering function that was bound once to it: nothing is suspended
+        between that binding and the test, so the table tested is the one that is current when the packet is delivered
+        """
+        g = g or cur[0]
+        return chain(e) if g.is_async or isinstance(g.node, ast.Lambda) else rchain(g, e)
+    cur = [dl]
 
     def unregistered(f):
         return False if is_registration_test(f) else None
@@ -4146,11 +4389,12 @@ def rule_taskmanager(ctx: Ctx) -> None:  # noqa: C901, PLR0912, PLR0915
             b = _simple_binding(h, links[0][1])
             recv = rchain(dl, b[recv]) if recv in b else None
         lst[0] = recv or ""
+        cur[0] = h
         open_ok = _chain_unreachable(ctx, links, closed)
         # (prefix in map or listener in _listeners): not a single dominating atom; no feasible path to the delivery with both false
         rechecked = _chain_unreachable(ctx, links, unregistered)
         scope = [dl, *[f for f, _ in links], *[t for k in calls(dl) for t in _helper_targets(ctx, dl, k)]]
-        has = any(fact_of(x, True).op == "in" and chain(fact_of(x, True).right) == "self._listeners" and isinstance(strip_cast(fact_of(x, True).left), ast.Name)
+        has = any(fact_of(x, True).op == "in" and rc(fact_of(x, True).right, f) == "self._listeners" and isinstance(strip_cast(fact_of(x, True).left), ast.Name)
                   for f in scope for x in ast.walk(f.node) if isinstance(x, ast.Compare))
         ctx.check(open_ok and has and rechecked, "taskmanager-gates", h, c, "_deliver_later delivers only to a still-registered listener on an open endpoint",
                   "a packet can be delivered to a listener that was removed in the meantime")
